@@ -8,5 +8,5 @@ MCShapes == JsonDeserialize(IOEnv.VERIF_SHAPES)
 MCProps == {"C09"}
 MCScript == IF MCLong THEN <<"SetPrior", "NewEmpty", "CopyTo", "SetObj", "CopyTo", "CopyTo", "SetPrior", "CopyTo">> ELSE <<"SetObj", "NewEmpty", "CopyTo", "SetPrior", "CopyTo", "CopyTo">>
 ASSUME PrintT("SHAPES " \o ToJson(MCShapes))
-INSTANCE Session WITH Shapes <- MCShapes, Script <- MCScript, Deep <- MCDeep, Props <- MCProps, ObjMode <- "all", RawMode <- "plans"
+INSTANCE Session WITH Shapes <- MCShapes, Script <- MCScript, Deep <- MCDeep, Props <- MCProps, ObjMode <- "all", RawMode <- "plans", EmptyMode <- "plain"
 ====
